@@ -25,6 +25,8 @@ type caseResult struct {
 	wbUntil      int
 	gethCompared int
 	fatal        []string
+	lostInflight int
+	lost         map[int]bool // indices of emitted logs that were in flight at a connection drop and never came out
 }
 
 var drvMu sync.Mutex
@@ -172,7 +174,7 @@ func evalCase(c *Case, drv *lib.Driver, guard bool) *caseResult {
 	if c.Geth {
 		// the delivered stream is what the L1 NODE pushed; logs the forwarding layer swallowed are
 		// put back where they were delivered
-		sems = withSwallowed(sems, cr.obs.Emitted)
+		sems = withSwallowed(sems, cr.obs.Emitted, cr.lost)
 	}
 	fs, wbUntil, stats := oracle(c, sems)
 	cr.findings = append(cr.findings, fs...)
@@ -238,6 +240,39 @@ func checkGethLayer(cr *caseResult, drv *lib.Driver) {
 		got[i] = suLine(l)
 	}
 	cr.gethCompared = len(want)
+	// logs pushed right before a connection drop may be lost on their way (go-ethereum's client
+	// and juno's forwarder both select between "next log" and "subscription error"): they may be
+	// missing from the forwarded stream; everything else must be there, in order
+	if len(o.Inflight) == len(want) {
+		// is there a choice of lost in-flight logs under which the streams are equal?
+		type key struct{ i, j int }
+		memo := map[key]bool{}
+		var match func(i, j int) bool
+		match = func(i, j int) bool {
+			if i == len(want) {
+				return j == len(got)
+			}
+			k := key{i, j}
+			if v, ok := memo[k]; ok {
+				return v
+			}
+			v := (j < len(got) && got[j] == want[i] && match(i+1, j+1)) || (o.Inflight[i] && match(i+1, j))
+			memo[k] = v
+			return v
+		}
+		if match(0, 0) {
+			cr.lostInflight = len(want) - len(got)
+			cr.lost = map[int]bool{}
+			for i, j := 0, 0; i < len(want); i++ {
+				if j < len(got) && got[j] == want[i] && match(i+1, j+1) {
+					j++
+				} else {
+					cr.lost[i] = true
+				}
+			}
+			want = got
+		}
+	}
 	if strings.Join(want, "|") != strings.Join(got, "|") {
 		cr.mismatches = append(cr.mismatches, lib.Mismatch{Sig: "geth-forwarded-stream-differs-from-node-stream",
 			Input: c, Model: want, Impl: got})
@@ -271,7 +306,15 @@ func checkGethLayer(cr *caseResult, drv *lib.Driver) {
 
 // withSwallowed re-inserts, into the trace the client executed, the logs the node delivered but
 // the forwarding layer never handed to the client (directly after the log delivered before them).
-func withSwallowed(sems []sem, emitted []Log) []sem {
+func withSwallowed(sems []sem, all []Log, lost map[int]bool) []sem {
+	// a log that was in flight when the connection died and never came out counts as not
+	// delivered (the loss cannot be attributed to juno from outside the process)
+	var emitted []Log
+	for i, l := range all {
+		if !lost[i] {
+			emitted = append(emitted, l)
+		}
+	}
 	var out []sem
 	j := 0
 	lastLive := -1
@@ -532,7 +575,9 @@ func main() {
 				compared++
 			}
 		}
-		res.Compared(compared + cr.gethCompared)
+		if len(cr.fatal) == 0 { // nothing was compared if the driver did not answer
+			res.Compared(compared + cr.gethCompared)
+		}
 		for _, st := range cr.an.steps {
 			if st.what == "start-up gate" {
 				res.Hit("startup:" + st.expect)
@@ -557,6 +602,12 @@ func main() {
 				}
 			}
 			res.HitN("geth:logs-through-real-forwarder", len(o.Events))
+			res.HitN("geth:inflight-logs-lost-at-connection-drop", cr.lostInflight)
+			for _, b := range o.Inflight {
+				if b {
+					res.Hit("geth:logs-in-flight-at-connection-drop")
+				}
+			}
 			rem, reorgs := 0, 0
 			prevRem := false
 			for _, l := range o.Emitted {
